@@ -441,8 +441,11 @@ func (q *seqRun) offline() {
 		Unstartable: map[string]bool{},
 		Name:        q.jn,
 	}
-	for _, s := range q.specs {
-		in.Concurrency[s.Name] = s.Def.Concurrency
+	q.noteConcurrency()
+	for name, c := range q.maxConc {
+		// with reloads the overlap checkers use the largest limit that was in force (the exact limit at each start is
+		// checked step by step against the model)
+		in.Concurrency[name] = c
 	}
 	for _, j := range q.jobs {
 		d := map[string][]string{}
